@@ -873,6 +873,11 @@ def parse_insn_operand(ctx, insn_name, operand_idx, **kwargs):
     else:
         operand_type = int
 
+    if operand_type is types.CodeBlock:
+        # An excess operand in the position of the code block ('.repeat 1, 2 { ... }'); the
+        # operand count is diagnosed when the metacommand is compiled
+        operand_type = int
+
     assert operand_type in (str, int)
 
     if operand_type is str:
